@@ -365,15 +365,20 @@ messageTypeSwitching:
 	case *objects.BadServerSalt:
 		m.serverSalt = message.NewSalt
 		err := m.SaveSession()
-		check(err)
-
-		m.mutex.Lock()
-		for _, k := range m.responseChannels.Keys() {
-			v, _ := m.responseChannels.Get(k)
-			verifYield("notify", int64(k))
-			v <- &errorSessionConfigsChanged{}
+		if err != nil {
+			m.warnError(errors.Wrap(err, "saving session"))
 		}
-		m.mutex.Unlock()
+
+		// the server rejected exactly one message, the one named by bad_msg_id: only its sender has to
+		// repeat the request. Its entry leaves the table together with the waiter, otherwise the next
+		// notification (or a late answer) would be sent into a channel nobody reads anymore
+		badMsgID := int(message.BadMsgID)
+		if v, ok := m.responseChannels.Get(badMsgID); ok {
+			verifYield("notify", int64(badMsgID))
+			v <- &errorSessionConfigsChanged{}
+			m.responseChannels.Delete(badMsgID)
+			m.expectedTypes.Delete(badMsgID)
+		}
 
 	case *objects.NewSessionCreated:
 		m.serverSalt = message.ServerSalt
